@@ -24,6 +24,8 @@ def OWpark (p0 : List Cmd) (t : Task) (mine : List Mut) : Prop :=
   | .bodySleep _ => mine = [] ∧ Cont p0 t.prog t
   | .seedGet k n => mine = [] ∧ Cont p0 (.incr k n :: t.prog) t ∧ t.ov.get k = none ∧ k ∉ t.del
   | .readGet k => mine = [] ∧ Cont p0 (.get k :: t.prog) t ∧ t.ov.get k = none ∧ k ∉ t.del
+  | .expGet k => mine = [] ∧ Cont p0 (.expire k :: t.prog) t ∧ t.ov.get k = none ∧ k ∉ t.del
+  | .existsGet k v e => mine = [] ∧ Cont p0 (.setx k v e :: t.prog) t ∧ t.ov.get k = none ∧ k ∉ t.del
   | .commitDel => mine = [] ∧ specBody p0 t.reads {} = .normal t.bst [] ∧ t.del ≠ []
   | .commitSet => mine = (if t.del ≠ [] then [Mut.delMany t.del] else []) ∧
       specBody p0 t.reads {} = .normal t.bst [] ∧ t.ov ≠ []
@@ -31,6 +33,11 @@ def OWpark (p0 : List Cmd) (t : Task) (mine : List Mut) : Prop :=
   | .finished o => Done p0 t.reads mine o
   | .start => False
   | .direct _ => False
+
+theorem bst_setxApply (t : Task) (k : Nat) (v : Int) (e p : Bool) :
+    (setxApply t k v e p).bst = setxSpec t.bst k v e p ∧ (setxApply t k v e p).reads = t.reads := by
+  unfold setxApply setxSpec
+  split <;> simp [Task.bst]
 
 theorem spec_localCmd {t t' : Task} {c : Cmd} (hl : localCmd t c = some t') (rest : List Cmd) (fr : List (Option Int)) :
     specBody (c :: rest) fr t.bst = specBody rest fr t'.bst ∧ t'.reads = t.reads := by
@@ -59,6 +66,36 @@ theorem spec_localCmd {t t' : Task} {c : Cmd} (hl : localCmd t c = some t') (res
         simp [specBody, Task.bst, hd, hv]
     · simp at hl
   case delete k => split at hl <;> simp at hl; subst hl; simp [specBody, Task.bst]
+  case expire k =>
+    split at hl
+    · split at hl
+      · rename_i hd
+        simp at hl; subst hl; simp [specBody, Task.bst, hd]
+      · rename_i hd
+        split at hl <;> simp at hl
+        subst hl
+        rename_i v hv
+        simp [specBody, Task.bst, hd, hv]
+    · simp at hl
+  case setx k v e =>
+    split at hl
+    · split at hl
+      · rename_i v0 hv
+        simp at hl; subst hl
+        have b := bst_setxApply t k v e true
+        rw [b.1, b.2]
+        have hv' : t.bst.ov.get k = some v0 := hv
+        simp [specBody, hv']
+      · rename_i hv
+        split at hl <;> simp at hl
+        subst hl
+        rename_i hd
+        have b := bst_setxApply t k v e false
+        rw [b.1, b.2]
+        have hv' : t.bst.ov.get k = none := hv
+        have hd' : k ∈ t.bst.del := hd
+        simp [specBody, hv', hd']
+    · simp at hl
   case sleep d => simp at hl
   case raise => simp at hl
   case nestIn f => simp at hl; subst hl; simp [specBody, Task.bst]
@@ -146,6 +183,33 @@ theorem OWpark_settle {p0 : List Cmd} (now : Nat) (prog : List Cmd) (t : Task) (
           | none => rfl
           | some v => simp [hd, hg] at hl
       · intro hd; simp [hd] at hl
+    case expire k =>
+      split
+      · rename_i hh
+        simp only [localCmd, hc, hh, Bool.and_self, if_true] at hl
+        simp only [OWpark]
+        refine ⟨trivial, h, ?_, ?_⟩
+        · by_cases hd : k ∈ t.del
+          · simp [hd] at hl
+          · cases hg : t.ov.get k with
+            | none => rfl
+            | some v => simp [hd, hg] at hl
+        · intro hd; simp [hd] at hl
+      · exact OWpark_lockOrFail h
+    case setx k v e =>
+      split
+      · rename_i hh
+        simp only [localCmd, hc, hh, Bool.and_self, if_true] at hl
+        simp only [OWpark]
+        refine ⟨trivial, h, ?_, ?_⟩
+        · cases hg : t.ov.get k with
+          | none => rfl
+          | some v => simp [hg] at hl
+        · intro hd
+          cases hg : t.ov.get k with
+          | none => simp [hg, hd] at hl
+          | some v => simp [hg] at hl
+      · exact OWpark_lockOrFail h
     case nestIn f => simp [localCmd] at hl
     case nestOut => simp [localCmd] at hl
 
@@ -173,9 +237,17 @@ theorem taskStep_isTx (tid now : Nat) (store : Store) (lock : Locks) (t : Task) 
   case readGet k =>
     rw [taskStep_readGet _ _ _ _ _ hpc]
     exact ⟨(Frame_settle _ _ _).isTx, fun hc => (Frame_settle _ _ _).ctx.trans hc⟩
+  case expGet k =>
+    rw [taskStep_expGet _ _ _ _ _ hpc]
+    exact ⟨(Frame_settle_expBuffer _ _ _ _).isTx, fun hc => (Frame_settle_expBuffer _ _ _ _).ctx.trans hc⟩
+  case existsGet k v e =>
+    rw [taskStep_existsGet _ _ _ _ _ hpc]
+    exact ⟨(Frame_settle_setx _ _ _ _ _ _ _).isTx, fun hc => (Frame_settle_setx _ _ _ _ _ _ _).ctx.trans hc⟩
   case direct c =>
     rw [taskStep_direct _ _ _ _ _ hpc]
     cases c <;> simp only [directStep]
+    case setx k v e => exact ⟨(Frame_settle _ _ _).isTx, fun hc => (Frame_settle _ _ _).ctx.trans hc⟩
+    case expire k => exact ⟨(Frame_settle _ _ _).isTx, fun hc => (Frame_settle _ _ _).ctx.trans hc⟩
     case set k v => exact ⟨(Frame_settle _ _ _).isTx, fun hc => (Frame_settle _ _ _).ctx.trans hc⟩
     case incr k n => exact ⟨(Frame_settle _ _ _).isTx, fun hc => (Frame_settle _ _ _).ctx.trans hc⟩
     case get k => exact ⟨(Frame_settle _ _ _).isTx, fun hc => (Frame_settle _ _ _).ctx.trans hc⟩
@@ -240,6 +312,38 @@ theorem OW_taskStep {p0 : List Cmd} {t : Task} {mine : List Mut} (hc : t.ctx = t
     simp only [specBody, Task.bst, hov, hdel, if_false] at this
     simp only [List.append_assoc, List.singleton_append]
     rw [this]; rfl
+  case expGet k =>
+    obtain ⟨hm, hcont, hov, hdel⟩ := h
+    subst hm
+    rw [taskStep_expGet _ _ _ _ _ hpc]
+    have e := expBuffer_frame t k (store k)
+    refine OWpark_settle now _ _ (e.2.2.2.2.1.trans hc) ?_
+    rw [e.2.2.2.2.2.2.1]
+    intro fr
+    have := hcont (store k :: fr)
+    rw [e.2.2.2.2.2.2.2.2.2]
+    simp only [List.append_assoc, List.singleton_append]
+    rw [this]
+    cases hs : store k with
+    | none => simp [specBody, Task.bst, hov, hdel, expBuffer]
+    | some v => simp [specBody, Task.bst, hov, hdel, expBuffer]
+  case existsGet k v e =>
+    obtain ⟨hm, hcont, hov, hdel⟩ := h
+    subst hm
+    rw [taskStep_existsGet _ _ _ _ _ hpc]
+    have g := setxApply_frame { t with reads := t.reads ++ [store k] } k v e (store k).isSome
+    have b := bst_setxApply { t with reads := t.reads ++ [store k] } k v e (store k).isSome
+    refine OWpark_settle now _ _ (g.2.2.2.2.1.trans hc) ?_
+    rw [g.2.2.2.2.2.2.2.2.1]
+    intro fr
+    have := hcont (store k :: fr)
+    rw [b.2, b.1]
+    simp only [List.append_assoc, List.singleton_append]
+    rw [this]
+    have hov' : t.bst.ov.get k = none := hov
+    have hdel' : k ∉ t.bst.del := hdel
+    simp only [specBody, hov', hdel', if_false]
+    rfl
   case commitDel =>
     obtain ⟨hm, hspec, hdel⟩ := h
     subst hm
@@ -397,7 +501,13 @@ theorem taskStep_store (tid now : Nat) (store : Store) (lock : Locks) (t : Task)
   case finished o => rw [taskStep_finished _ _ _ _ _ hpc]; rfl
   case seedGet k n => rw [taskStep_seedGet _ _ _ _ _ hpc]; rfl
   case readGet k => rw [taskStep_readGet _ _ _ _ _ hpc]; rfl
-  case direct c => rw [taskStep_direct _ _ _ _ _ hpc]; cases c <;> rfl
+  case expGet k => rw [taskStep_expGet _ _ _ _ _ hpc]; rfl
+  case existsGet k v e => rw [taskStep_existsGet _ _ _ _ _ hpc]; rfl
+  case direct c =>
+    rw [taskStep_direct _ _ _ _ _ hpc]
+    cases c
+    case setx k v e => simp only [directStep]; split <;> rfl
+    all_goals rfl
   case commitDel => rw [taskStep_commitDel _ _ _ _ _ hpc]; rfl
   case commitSet => rw [taskStep_commitSet _ _ _ _ _ hpc]; rfl
   case unlocking ls o =>
